@@ -120,6 +120,14 @@ def _with_echo(rng, qs, members):
     import copy
     out = []
     for q in qs:
+        if q["q"] in ("h", "rwc") and rng.random() < 0.35:
+            # first an abandoned enumeration of the same (or a larger) pool from the same side
+            pk = copy.deepcopy(q)
+            pk["q"] = "rwc_peek"
+            pk["take"] = rng.choice([1, 1, 2, 3])
+            if rng.random() < 0.4:
+                pk["dice"] = pk["dice"] + pk["dice"][:1]
+            out.append(pk)
         out.append(q)
         if q["q"] in ("h", "rwc") and rng.random() < 0.6:
             other = rng.choice(members)
